@@ -259,6 +259,11 @@ func (c *tracingHTTP2Conn) closeStreamLocked(streamID uint32, stream *http2Strea
 		stream.requestTracer.emitUnfinished()
 		stream.responseTracer.emitUnfinished()
 		stream.builder.add(&ResponseBodyEnd{Err: err})
+	} else if err != nil {
+		// The stream was reset before any response headers arrived (e.g.
+		// REFUSED_STREAM). The call is over: complete its trace.
+		stream.requestTracer.emitUnfinished()
+		stream.builder.add(&ResponseError{Err: err})
 	}
 }
 
